@@ -72,6 +72,13 @@ func (s *vfSession) mkPayload(x *vfSide, stunLike bool) []byte {
 		p = p[:20+l]
 		binary.BigEndian.PutUint16(p[0:], 0x0001)
 		binary.BigEndian.PutUint16(p[2:], uint16(l)) //nolint:gosec
+		if s.rng.IntN(2) == 0 {
+			// not a well-formed header, but still what every receiver treats as STUN (magic cookie at offset 4):
+			// e.g. an RTP packet (first byte 0x80) whose timestamp happens to equal the cookie
+			p[0] = []byte{0x80, 0x90, 0x04, 0x40, 0xC0, 0xFF}[s.rng.IntN(6)]
+			p[1] = byte(s.rng.IntN(256))
+			binary.BigEndian.PutUint16(p[2:], uint16(s.rng.IntN(65536))) //nolint:gosec
+		}
 		binary.BigEndian.PutUint32(p[4:], 0x2112A442)
 		binary.BigEndian.PutUint32(p[8:], uint32(s.idx))
 		binary.BigEndian.PutUint32(p[12:], d.seq)
@@ -213,6 +220,16 @@ func (s *vfSession) injectData(x *vfSide, known bool, stunLike bool) {
 		return
 	}
 	var src netip.AddrPort
+	if !known && x.otherTransportAddr.IsValid() && s.rng.IntN(3) == 0 && dst.Addr().Is4() {
+		// an address the agent knows only as a remote TCP candidate, used as the source of a UDP datagram
+		payload := s.mkPayload(x, stunLike)
+		s.step("inject-data", x.name, 0, fmt.Sprintf("from %s known-on-other-transport stunlike=%v", x.otherTransportAddr, stunLike))
+		dg := s.sw.inject(x.otherTransportAddr, dst, payload)
+		s.r.set("c07_inbound_kinds", fmt.Sprintf("known-on-other-transport/stunlike=%v", stunLike))
+		s.deliver(dg.ID, false)
+
+		return
+	}
 	if known && len(sn.Remotes) > 0 {
 		var cands []netip.AddrPort
 		for _, rc := range sn.Remotes {
@@ -466,6 +483,14 @@ func vfC07Run(e *vfEnv, r *vfResult, idx int) {
 		r.inconclusive(1)
 
 		return
+	}
+	// each side is also told a TCP passive candidate of the peer on an address that is no UDP candidate
+	for i, x := range s.sides() {
+		ap := netip.MustParseAddrPort(fmt.Sprintf("10.%d.200.1:9000", 50+i))
+		if tc, err := NewCandidateHost(&CandidateHostConfig{Network: "tcp", Address: ap.Addr().String(), Port: int(ap.Port()), Component: 1, TCPType: TCPTypePassive}); err == nil {
+			x.otherTransportAddr = ap
+			s.addRemoteStep(x, tc, fmt.Sprintf("%s told TCP passive candidate %s", x.name, ap))
+		}
 	}
 	budget := map[*vfSide]int{s.A: 40, s.B: 40}
 	s.chaosC07(40+s.rng.IntN(200), budget, &pending)
